@@ -200,27 +200,33 @@ def tc_diff(exp, got, aggs):
 # which recorded deviation classes (cls= of the specification's answer, see Spec/Metrics.lean `classes`) can explain which
 # kind of disagreement; a disagreement that none of the query's classes can explain is reported without class
 M_SELECT = {"absent-label-matcher", "same-label-twice", "no-tags", "tsid-preimage-collision", "tag-value-over-64k",
-            "numeric-tag-value", "remote-write-escape", "tsids-per-value-over-64k"}
+            "numeric-tag-value", "remote-write-escape", "tsids-per-value-over-64k", "crash-before-tags-flush", "escaped-metric-name"}
 M_LABELS = {"value-has-comma", "json-escaped-tag-value", "tsid-preimage-collision", "tag-value-over-64k",
             "numeric-tag-value", "remote-write-escape", "tsids-per-value-over-64k"}
 M_RELEVANT = {
     "series-missing": M_SELECT,
     "series-extra": {"absent-label-matcher", "matcher-on-missing-key", "same-label-twice", "tsid-preimage-collision", "regex-on-empty-value", "tag-value-over-64k",
-                     "numeric-tag-value", "remote-write-escape", "tsids-per-value-over-64k"},
+                     "numeric-tag-value", "remote-write-escape", "tsids-per-value-over-64k", "star-literal-matcher", "tag-value-not-a-string",
+                     "escaped-metric-name"},
     "series-merged": {"name-regex-same-tagset", "tsid-preimage-collision"},
     "series-duplicated": set(),
     "labels-changed": M_LABELS,
-    "point-missing": {"tsid-preimage-collision", "absent-label-matcher", "tag-value-over-64k", "tsids-per-value-over-64k", "remote-write-escape", "numeric-tag-value"},
-    "point-extra": {"tsid-preimage-collision"},
-    "value-bits-changed": {"negative-zero", "tsid-preimage-collision", "name-regex-same-tagset"},
-    "query-error": {"numeric-tag-value"},  # (repaired) "unknown value type" of the rotated exact-match reader
+    "point-missing": {"tsid-preimage-collision", "absent-label-matcher", "tag-value-over-64k", "tsids-per-value-over-64k", "remote-write-escape", "numeric-tag-value",
+                      "crash-before-tags-flush", "escaped-metric-name", "tag-value-not-a-string"},
+    "point-extra": {"tsid-preimage-collision", "tag-value-not-a-string"},
+    "label-values": {"tag-value-not-a-string", "crash-before-tags-flush", "label-values-first-metric-only", "label-values-of-all-keys"},
+    "value-bits-changed": {"negative-zero", "tsid-preimage-collision", "name-regex-same-tagset", "tag-value-not-a-string"},
+    # (repaired) "unknown value type" of the rotated exact-match reader; a tags tree holder that was never flushed before a crash
+    "query-error": {"numeric-tag-value", "crash-before-tags-flush"},
 }
 M_AGG = M_SELECT | M_LABELS | {"name-regex-same-tagset", "regex-on-empty-value", "empty-group-key", "matcher-on-missing-key",
-                               "agg-value-has-brace", "binop-label-order", "binop-trailing-comma"}
+                               "agg-value-has-brace", "binop-label-order", "binop-trailing-comma", "star-literal-matcher", "tag-value-not-a-string"}
 # binary operators between vectors: the classes that can keep an element from finding its partner / change an operand
 M_BIN = {"value-has-comma", "absent-label-matcher", "matcher-on-missing-key", "same-label-twice", "regex-on-empty-value", "empty-group-key",
          "name-regex-same-tagset", "agg-value-has-brace", "binop-label-order", "binop-trailing-comma", "tsid-preimage-collision", "no-tags",
-         "tag-value-over-64k"}
+         "tag-value-over-64k", "crash-before-tags-flush", "star-literal-matcher", "tag-value-not-a-string",
+         "binop-one-sided-timestamp", "binop-division-by-zero", "vector-matching-label-chars", "set-operator-with-on", "unary-minus",
+         "comparison-scalar-on-the-left", "empty-intermediate-vector", "escaped-metric-name", "mixed-name-vector-operand"}
 # classes of REPAIRED deviations (known_findings.txt `fixed:` lines).  They never excuse anything: a disagreement that a
 # still recorded class of the query can explain is reported under that class alone; one that only repaired classes could
 # explain is reported as e2em/in-class/<repaired class>, which no `known:` line lists any more — i.e. as a VIOLATION
@@ -228,7 +234,12 @@ M_BIN = {"value-has-comma", "absent-label-matcher", "matcher-on-missing-key", "s
 M_FIXED = {"tsid-preimage-collision", "no-tags", "negative-zero", "json-escaped-tag-value",
            "same-label-twice", "regex-on-empty-value", "tag-value-over-64k", "matcher-on-missing-key",
            "numeric-tag-value", "remote-write-escape", "tsids-per-value-over-64k",
-           "agg-value-has-brace", "binop-label-order", "binop-trailing-comma"}
+           "agg-value-has-brace", "binop-label-order", "binop-trailing-comma",
+           # second metrics round (patches c08-1, c09-16 … c09-23)
+           "star-literal-matcher", "tag-value-not-a-string", "binop-one-sided-timestamp", "binop-division-by-zero",
+           "vector-matching-label-chars", "set-operator-with-on", "unary-minus", "comparison-scalar-on-the-left",
+           "empty-intermediate-vector", "label-values-first-metric-only", "label-values-of-all-keys", "escaped-metric-name",
+           "mixed-name-vector-operand"}
 
 
 def m_sig(what, cls):
@@ -281,7 +292,7 @@ def compare_mbin(ia, mb, qi):
     cls = [c for c in mb.get("cls", "").split(",") if c]
     lat = set(c for c in mb.get("lat", "").split(",") if c)
     if ia.get("kind") == "error":
-        return [(m_sig("query-error", cls), "binary-operator query %d answered with an error: %s" % (qi, unhex(ia.get("err", ""))[:200]))]
+        return [(m_sig("agg/binop-query-error", cls), "binary-operator query %d answered with an error: %s" % (qi, unhex(ia.get("err", ""))[:200]))]
     if ia.get("kind") != "mbin":
         return [("e2em/protocol/kind", "query %d: impl kind %s model kind mbin" % (qi, ia.get("kind")))]
     if "unaligned" in lat:
@@ -289,12 +300,14 @@ def compare_mbin(ia, mb, qi):
     fails = []
     E, G = {}, {}
     for _, labels, pts in m_parse_series(mb.get("ser", "")):
-        E[labels] = pts
+        E.setdefault(labels, {}).update(pts)
     dup = []
     for _, labels, pts in m_parse_series(ia.get("ser", "")):
         if not pts:
             continue
-        if labels in G:
+        # (`or` may report the samples of one label set under two series — the left one and the right one — at
+        # different timestamps; two samples of one label set at ONE timestamp are a duplicate)
+        if labels in G and set(G[labels]) & set(pts):
             dup.append(labels)
         G.setdefault(labels, {}).update(pts)
     def sig(what):
@@ -316,7 +329,7 @@ def compare_mbin(ia, mb, qi):
             e, g = ep.get(t), gp.get(t)
             if e == "?":
                 continue
-            if e is None or g is None or not (e == g or close(e, g)):
+            if e is None or g is None or not (e == g or (e not in ("inf", "-inf", "nan") and g not in ("inf", "-inf", "nan") and close(e, g))):
                 bad.append((t, e, g))
         if bad:
             fails.append((sig("value"), "query %d result %s: (ts, expected, got) %s" % (qi, m_show(("", k)), bad[:6])))
@@ -345,6 +358,18 @@ def compare_metrics(ia, mb, qi):
     lat = set(c for c in mb.get("lat", "").split(",") if c)
     if kind in ("bad-range", "magg-undefined", "mbin-undefined"):
         return fails  # the specification does not define an answer
+    if kind == "mlv":
+        # label-values API: exactly the values of the label over the accepted, ingested series
+        if ia.get("kind") == "error":
+            return [(m_sig("query-error", cls), "label-values query %d answered with an error: %s" % (qi, unhex(ia.get("err", ""))[:200]))]
+        if ia.get("kind") != "mlv":
+            return [("e2em/protocol/kind", "query %d: impl kind %s model kind mlv" % (qi, ia.get("kind")))]
+        ev = set(x for x in mb.get("vals", "").split(",") if x)
+        gv = set(x for x in ia.get("vals", "").split(",") if x)
+        if ev != gv:
+            sh = lambda l: [unhex(x[1:]) for x in sorted(l)][:6]
+            return [(m_sig("label-values", cls), "query %d (label values): missing %s, not expected %s (values of other labels, or of datapoints that were rejected)" % (qi, sh(ev - gv), sh(gv - ev)))]
+        return fails
     if ia.get("kind") == "error":
         return [(m_sig("query-error", cls), "%s query %d answered with an error: %s" % (kind, qi, unhex(ia.get("err", ""))[:200]))]
     if ia.get("kind") != kind:
@@ -448,7 +473,7 @@ def compare(impl, model):
         if kind == "mbin":
             fails += compare_mbin(ia, mb, qi)
             continue
-        if kind in ("mseries", "magg", "magg-undefined", "mbin-undefined", "bad-range"):
+        if kind in ("mseries", "magg", "magg-undefined", "mbin-undefined", "bad-range", "mlv"):
             fails += compare_metrics(ia, mb, qi)
             continue
         cls = mb.get("cls", "")
@@ -525,6 +550,100 @@ def compare(impl, model):
                 fails.append(("e2e/paging/event-on-no-page", "query %d: paging returned %d of %d matches; missing %s extra %s" % (qi, len(vids), len(order), sorted(set(order) - set(vids))[:10], sorted(set(vids) - set(order))[:10])))
             elif any(tss[i] < tss[i + 1] for i in range(len(tss) - 1)):
                 fails.append(("e2e/order/not-newest-first", "query %d: concatenated pages not newest first" % qi))
+        elif kind == "tail":
+            # `| tail n`: the n oldest matches (ties on the cut: any), handed out oldest first
+            if int(mb.get("nmay", 0)) > 0:
+                continue
+            order, ots = ints(mb.get("order", "")), ints(mb.get("ots", ""))
+            n = int(mb.get("n", 1))
+            got = []
+            for x in ia.get("ids", "").split(","):
+                if x:
+                    v, _, t = x.partition("@")
+                    got.append((int(v) if v.isdigit() else -1, int(t) if t.isdigit() else -1))
+            tsof = dict(zip(order, ots))
+            exp_ts = sorted(ots)[:n]
+            gts = [t for _, t in got]
+            if len(set(v for v, _ in got)) != len(got):
+                fails.append(("e2e/tail/duplicate-event", "query %d: an event is returned twice: %s" % (qi, got[:20])))
+            elif sorted(gts) != exp_ts or any(tsof.get(v) != t for v, t in got):
+                fails.append((cls_sig("tail", cls), "query %d: tail %d returned %s; expected the %d oldest matches, timestamps %s" % (qi, n, got[:20], n, exp_ts[:20])))
+            elif any(gts[i] > gts[i + 1] for i in range(len(gts) - 1)):
+                fails.append(("e2e/tail/not-oldest-first", "query %d: tail hands out the last events of the stream in reverse order (oldest first); got timestamps %s" % (qi, gts[:20])))
+        elif kind == "dedup":
+            # `| dedup f`: one event per value of f, the newest one (among equal timestamps: any of them)
+            if int(mb.get("nmay", 0)) > 0:
+                continue
+            groups = {}
+            for g in mb.get("groups", "").split(","):
+                if g:
+                    head, _, cands = g.partition(":")
+                    groups[head] = set(cands.split("+"))
+            got = [x.partition("@")[0] for x in ia.get("ids", "").split(",") if x]
+            used, bad = {}, []
+            for v in got:
+                hit = [h for h, c in groups.items() if v in c]
+                if len(hit) != 1 or hit[0] in used:
+                    bad.append(v)
+                else:
+                    used[hit[0]] = v
+            missing = sorted(set(groups) - set(used))
+            if bad or missing:
+                fails.append((cls_sig("dedup", cls), "query %d: dedup returned events %s; events that are not the newest of their value (or a second one of a value): %s; values without an event: %s" % (qi, got[:30], bad[:10], [unhex(m.partition("@")[0]) for m in missing][:10])))
+        elif kind == "top":
+            # `| top f` / `| rare f`: value -> number of matched events holding it, most / least common first, 10 rows (or
+            # all of them) unless a limit is given.  An extra row with the empty key (the events lacking f) is granted; the
+            # percentages are judged only when every matched event has f.
+            if int(mb.get("nmay", 0)) > 0:
+                continue
+            exp = {}
+            for r in mb.get("rows", "").split(","):
+                if r:
+                    k, _, v = r.partition("=")
+                    exp[k] = int(v)
+            rare = mb.get("rare") == "1"
+            limit = 10 if mb.get("limit", "-") == "-" else int(mb["limit"])
+            total, withf = int(mb.get("total", 0)), int(mb.get("withf", 0))
+            got = []
+            for r in ia.get("rows", "").split(","):
+                if r:
+                    k, _, v = r.partition("=")
+                    c, _, pc = v.partition(";")
+                    got.append((k, c, pc))
+            if total > withf:
+                got = [g for g in got if g[0] != ""]
+            problems = []
+            gk = [g[0] for g in got]
+            if len(set(gk)) != len(gk):
+                problems.append("a value is listed twice")
+            for k, c, pc in got:
+                if k not in exp:
+                    problems.append("value %r does not occur" % unhex(k))
+                elif str(exp[k]) != c:
+                    problems.append("value %r: count %s expected %d" % (unhex(k), c, exp[k]))
+                elif pc not in ("none", "missing") and total == withf:
+                    try:
+                        f = Fraction(pc)
+                        if not any(d and abs(f - Fraction(100 * exp[k], d)) <= Fraction(1, 10 ** 5) for d in (total, withf)):
+                            problems.append("value %r: percent %s of count %d in %d (%d with the field)" % (unhex(k), pc, exp[k], total, withf))
+                    except Exception:
+                        problems.append("value %r: percent %s" % (unhex(k), pc))
+            want = min(limit, len(exp))
+            # no limit given: Splunk lists 10 values, the engine all of them — either is accepted
+            if len(got) != want and not (mb.get("limit", "-") == "-" and len(got) == len(exp)):
+                problems.append("%d rows, expected %d" % (len(got), want))
+            elif not problems:
+                # the rows kept are the most (least) common ones, in that order; ties in any order
+                cs = [exp[k] for k in gk]
+                ordered = all((cs[i] <= cs[i + 1]) if rare else (cs[i] >= cs[i + 1]) for i in range(len(cs) - 1))
+                rest = [c for k, c in exp.items() if k not in gk]
+                cut_ok = not rest or not cs or ((max(cs) <= min(rest)) if rare else (min(cs) >= max(rest)))
+                if not ordered:
+                    problems.append("rows not ordered by count: %s" % cs)
+                if not cut_ok:
+                    problems.append("the rows kept (counts %s) are not the %s common ones (counts left out: %s)" % (cs, "least" if rare else "most", sorted(rest)))
+            if problems:
+                fails.append((cls_sig("top", cls), "query %d: %s %s; got %s expected %s" % (qi, "rare" if rare else "top", "; ".join(problems[:4]), [(unhex(k), c) for k, c, _ in got][:12], sorted((unhex(k), v) for k, v in exp.items())[:12])))
         elif kind == "recs":
             exp = parse_recs(mb.get("recs", ""))[frm:frm + size]
             got = parse_recs(ia.get("recs", ""))
@@ -579,7 +698,7 @@ def compare(impl, model):
                         continue
                     if v[0] == "b" and w[0] == "s" and unhex(w[1:]) == ("true" if v == "b1" else "false") and k in texty | {k}:
                         # a bool sharing a column with other types may come back as its text (same latitude class)
-                        if any(x[2].get(k, "b")[0] != "b" for x in exp):
+                        if any(x[2].get(k, "b")[0] != "b" for x in exp) or k in set(x for x in mb.get("boolmix", "").split(",") if x):
                             continue
                     fails.append(("e2e/recs/value-changed", "query %d event %s: %s sent %s returned %s" % (qi, vid, k, v, w)))
                 for k in gf:
